@@ -79,11 +79,36 @@ pub enum AddrClass {
     Mc48,
     /// ff05:0:0:1:2:3:4:5 (no compressed form: 128 bits in-line)
     McFull,
+    /// ff35::/16 group whose FIRST non-zero octet (after the flags/scope octet) is octet k = 0x80,
+    /// last two octets 0x12 0x34 (k in 2..=13): walks across the boundaries of the 48-bit, 32-bit
+    /// and in-line multicast forms (e.g. k=12: ff35::8000:1234, an RFC 3307 dynamic group id).
+    /// The receiver JOINS these groups (Interface::join_multicast_group).
+    McK(u8),
 }
 pub const UNICAST_CLASSES: [AddrClass; 7] =
     [AddrClass::LlHw, AddrClass::Ll16, AddrClass::Ll64, AddrClass::Global, AddrClass::Ctx, AddrClass::LlWideA, AddrClass::LlWideB];
-pub const MCAST_CLASSES: [AddrClass; 6] =
-    [AddrClass::McAllNodes, AddrClass::McSolicited, AddrClass::Mc8, AddrClass::Mc32, AddrClass::Mc48, AddrClass::McFull];
+pub const MCAST_CLASSES: [AddrClass; 18] = [
+    AddrClass::McAllNodes,
+    AddrClass::McSolicited,
+    AddrClass::Mc8,
+    AddrClass::Mc32,
+    AddrClass::Mc48,
+    AddrClass::McFull,
+    AddrClass::McK(2),
+    AddrClass::McK(3),
+    AddrClass::McK(4),
+    AddrClass::McK(5),
+    AddrClass::McK(6),
+    AddrClass::McK(7),
+    AddrClass::McK(8),
+    AddrClass::McK(9),
+    AddrClass::McK(10),
+    AddrClass::McK(11),
+    AddrClass::McK(12),
+    AddrClass::McK(13),
+];
+const MCK_NAMES: [&str; 14] =
+    ["", "", "mc-k2", "mc-k3", "mc-k4", "mc-k5", "mc-k6", "mc-k7", "mc-k8", "mc-k9", "mc-k10", "mc-k11", "mc-k12", "mc-k13"];
 impl AddrClass {
     pub fn name(self) -> &'static str {
         match self {
@@ -100,6 +125,7 @@ impl AddrClass {
             AddrClass::Mc32 => "mc-32bit",
             AddrClass::Mc48 => "mc-48bit",
             AddrClass::McFull => "mc-full",
+            AddrClass::McK(k) => MCK_NAMES[(k as usize).min(13)],
         }
     }
     pub fn from_name(s: &str) -> AddrClass {
@@ -115,6 +141,10 @@ impl AddrClass {
     }
     /// does the receiver need `set_any_ip(true)` to accept this destination? (joining a group
     /// would make the 802.15.4 interface emit an MLD report, see the `mld` part)
+    /// does the receiver join this group?
+    pub fn needs_join(self) -> bool {
+        matches!(self, AddrClass::McK(_))
+    }
     pub fn needs_any_ip(self) -> bool {
         matches!(self, AddrClass::Mc8 | AddrClass::Mc32 | AddrClass::Mc48 | AddrClass::McFull)
     }
@@ -182,6 +212,15 @@ pub fn dst_addr(r_hw: HwKind, c: AddrClass) -> Ipv6Address {
         AddrClass::Mc32 => Ipv6Address::new(0xff05, 0, 0, 0, 0, 0, 1, 3),
         AddrClass::Mc48 => Ipv6Address::new(0xff0e, 0, 0, 0, 0, 1, 0xff00, 0x1234),
         AddrClass::McFull => Ipv6Address::new(0xff05, 0, 0, 1, 2, 3, 4, 5),
+        AddrClass::McK(k) => {
+            let mut b = [0u8; 16];
+            b[0] = 0xff;
+            b[1] = 0x35;
+            b[(k as usize).clamp(2, 13)] = 0x80;
+            b[14] = 0x12;
+            b[15] = 0x34;
+            Ipv6Address::from_octets(b)
+        }
         _ => unicast_addr(1, r_hw, c),
     }
 }
@@ -206,6 +245,8 @@ pub struct WorldCfg {
     /// octet every transmit buffer is pre-filled with before smoltcp writes the frame
     pub fill: u8,
     pub r_any_ip: bool,
+    /// multicast groups R joins
+    pub r_join: Vec<Ipv6Address>,
     pub proto: Proto,
     pub tcp_buf: usize,
 }
@@ -325,6 +366,11 @@ impl Node {
         let _ = iface.routes_mut().add_default_ipv6_route(unicast_addr(1 - node, peer_hw, AddrClass::LlHw));
         if cfg.med == Med::Lowpan {
             let _ = iface.sixlowpan_address_context_mut().push(SixlowpanAddressContext(CTX_PREFIX));
+        }
+        if node == 1 {
+            for g in &cfg.r_join {
+                iface.join_multicast_group(IpAddress::Ipv6(*g)).expect("multicast group table full");
+            }
         }
         if node == 1 && cfg.r_any_ip {
             iface.set_any_ip(true);
